@@ -357,6 +357,26 @@ extern "C" void c02_run()
     for (int y = 0; y < p->sporadic_idle[k]; y++)
       sim_yield();
     int id = C02_MAXITEMS + 2000 + k;
+    if (p->sporadic_pair[k]) {
+      int idb = C02_MAXITEMS + 2100 + k;
+      {
+        SimTag tag(SIM_TAG_SUT);
+        schedule([id, idb]() {
+          c02_exec(id);
+          c02_wait_for(idb);  // long-lived: keeps its tasking thread until the function handed over next has run
+          c02_exec_done(id);
+        });
+        schedule([idb]() {
+          c02_exec(idb);
+          c02_exec_done(idb);
+        });
+      }
+      c02_created(id);
+      c02_created(idb);
+      c02_wait_one(idb);
+      c02_wait_one(id);
+      continue;
+    }
     items.push_back(new SchedItem(id, nullptr));
     c02_wait_one(id);
   }
